@@ -106,10 +106,11 @@ class SObj:
 
 
 class SEnum:
-    def __init__(self, cls, value, name=None):
+    def __init__(self, cls, value, name=None, int_value=None):
         self.cls = cls
-        self.value = value
+        self.value = value  # .value
         self.name = name
+        self.int_value = int_value  # int(member) when it differs from .value (pseudo members of a lossy _missing_)
 
     def __repr__(self):
         return f"<{self.cls.name}.{self.name or self.value}>"
